@@ -187,6 +187,8 @@ func (c20) Run(c *Ctx, i int) CaseResult {
 		}
 		res.Fails = []Failure{f0}
 	}
+	// L1: the whole plan against the planner model (the chooser is one of its parts)
+	res.Fails = append(res.Fails, PlanCorrFails(c, fc, in)...)
 	if i%151 == 0 || i < 2 {
 		ks := []string{}
 		for k, v := range fc.Fed.Locations {
